@@ -378,6 +378,7 @@ def C16(ck):
     # (a) the transcription satisfies ValidTable on the enumerated families (fixed), and can fail (as-is)
     runs = [('fixed', 'A', dict(rare=254 if T else 120, dom=6 if T else 3, bigs=(10, 100, 1000, 100000) if T else (10, 1000), lrs=(8, 10, 12, 16) if T else (8, 12))),
             ('fixed', 'B', dict(maxlen=4 if T else 3, menu=(1, 2, 3, 7, 40, 255, 256, 1000, 65535) if T else (1, 2, 3, 40, 255, 256, 1000), lrs=(8, 9, 12, 16) if T else (8, 12))),
+            ('fixed', 'C', dict(dom=12 if T else 6, lrs=(8, 9, 10, 11, 12) if T else (8, 10, 12))),
             ('asis', 'A', dict(rare=100, dom=3, bigs=(10, 100, 1000), lrs=(8, 12)))]
 
     def one(r):
@@ -413,6 +414,21 @@ def C16(ck):
             cases.append({'in': [S], 'lr': lr, 'conv': cv[0], 'pos': cv[1]})
             cases.append({'in': [1] * min(256, S), 'lr': lr, 'conv': cv[0], 'pos': cv[1]})
             cases.append({'in': [S - 1, 2], 'lr': lr, 'conv': cv[0], 'pos': cv[1]})
+    # rounding boundaries of the quantisation (family C of KzNormFreq, here for every scale): a symbol of count f in a total
+    # where f*scale/total = k + 1/2, one below, one above
+    for lr in ((8, 9, 10, 11, 12, 13, 14, 15, 16) if T else (8, 10, 12, 14, 16)):
+        S = 1 << lr
+        for f in ((1, 2, 3, 4, 5, 7, 11) if T else (1, 2, 3, 5)):
+            for k in range(4):
+                for dl in (-1, 0, 1):
+                    tot = (2 * f * S) // (2 * k + 1) + dl
+                    if tot - f - 1 < 1:
+                        continue
+                    cv = convs[(lr + f + k + dl) % 4]
+                    cases.append({'in': [f, tot - f], 'lr': lr, 'conv': cv[0], 'pos': cv[1]})
+                    cases.append({'in': [f, 1, tot - f - 1], 'lr': lr, 'conv': cv[0], 'pos': cv[1]})
+                    if tot - f - 40 >= 1:
+                        cases.append({'in': [1] * 20 + [f, tot - f - 40] + [1] * 20, 'lr': lr, 'conv': cv[0], 'pos': cv[1]})
     nrand = 6000 if T else 500
     for i in range(nrand):
         lr = rnd.choice((8, 9, 10, 11, 12, 13, 14, 15, 16))
@@ -1249,10 +1265,10 @@ def C18(ck):
 LEVEL['C14'] = 'model_checking'
 
 
-def _bitout_cfg(maxbits, bitsops, arrops, fail='{}', buf=64):
+def _bitout_cfg(maxbits, bitsops, arrops, fail='{}', buf=64, closeimpl='fixed'):
     mc = '---- MODULE MC_B ----\nEXTENDS KzBitOut\nMCBits == {%s}\nMCArr == {%s}\nMCFail == %s\n====\n' % (bitsops, arrops, fail)
-    c = ('CONSTANTS\n BUF = %d\n MaxBits = %d\n BitsOps <- MCBits\n ArrOps <- MCArr\n FailFlush <- MCFail\nSPECIFICATION Spec\n'
-         'INVARIANTS Image Closed Counter CleanCur InBuffer PanicOnlyOnFault\nCHECK_DEADLOCK FALSE\n') % (buf, maxbits)
+    c = ('CONSTANTS\n BUF = %d\n MaxBits = %d\n BitsOps <- MCBits\n ArrOps <- MCArr\n FailFlush <- MCFail\n CloseImpl = "%s"\nSPECIFICATION Spec\n'
+         'INVARIANTS Image Closed Counter CleanCur InBuffer PanicOnlyOnFault\nCHECK_DEADLOCK FALSE\n') % (buf, maxbits, closeimpl)
     return mc, c
 
 
@@ -1307,13 +1323,15 @@ def C14(ck):
                (_bitin_cfg('fixed', '1,64', '3,8', '64,300', errat=70), False, 'in source error at 70')]
     selftests = [(_bitin_cfg('asis', '1,7,8,64', '3,8', '64,128,300'), 'asis short reads: spurious end of data'),
                  (_bitin_cfg('asis', '13,64', '3,8', '64,128,300'), 'asis short reads: bits out of order')]
+    out_selftests = [(_bitout_cfg(200, '3,8', '64', fail='{1}', closeimpl='asis'), 'asis failed Close keeps the padding subtracted from the counter (F19)')]
 
     def one(job):
         (mc, c), dump, label, mod = job
         d = kzv.scratch('bits')
         args = ['-dump', 'dot,actionlabels', os.path.join(d, 'g.dot')] if dump else []
         return kzv.tlc(mod, c, workers=2, timeout=3000, extra_files={mod + '.tla': mc}, args=args, workdir=d, heap='4g'), d
-    jobs = [(r[0], r[1], r[2], 'MC_B') for r in out_runs] + [(r[0], r[1], r[2], 'MC_I') for r in in_runs] + [(s[0], False, s[1], 'MC_I') for s in selftests]
+    jobs = ([(r[0], r[1], r[2], 'MC_B') for r in out_runs] + [(r[0], r[1], r[2], 'MC_I') for r in in_runs] + [(s[0], False, s[1], 'MC_I') for s in selftests]
+            + [(s[0], False, s[1], 'MC_B') for s in out_selftests])
     with ThreadPoolExecutor(max_workers=6) as ex:
         results = list(ex.map(one, jobs))
     progs = []
